@@ -10,7 +10,7 @@ import json
 from core import Report, Work, run_tlc, use_repo, seed, MachineryError
 import zinccodec
 
-VERS = ['2.0', '3.0', '2.5', '3.0.0', '1.0', '4.0']
+VERS = ['2.0', '3.0', '2.5', '3.0.0', '1.0', '4.0', '2.0.0', '2.0.0.0', '2', '3']
 
 
 def val(hs, kind):
@@ -46,7 +46,7 @@ def new_grid(hs, ver):
 
 def store(hs, g, path, kind, n):
     v = val(hs, kind)
-    k = 'k%d' % n
+    k = 'k'          # the same tag on every step: a second store overwrites the first
     if path == 'append':
         g.append({'a': v}); return lambda: g[-1]['a'] is v
     if path == 'insert':
@@ -67,6 +67,14 @@ def store(hs, g, path, kind, n):
         g.column['a'][k] = v; return lambda: g.column['a'][k] is v
     if path == 'colmeta_append':
         g.column['a'].append(k, v); return lambda: g.column['a'][k] is v
+    if path == 'meta_overwrite':
+        g.metadata['m0'] = v; return lambda: g.metadata['m0'] is v
+    if path == 'colmeta_overwrite':
+        g.column['a']['u'] = v; return lambda: g.column['a']['u'] is v
+    if path == 'meta_update':
+        g.metadata.update({'m0': v}); return lambda: g.metadata['m0'] is v
+    if path == 'col_reassign':
+        g.column['b'] = {'t': v}; return lambda: g.column['b']['t'] is v
     if path == 'col_assign':
         g.column['c' + k] = {'t': v}; return lambda: g.column['c' + k]['t'] is v
     if path == 'col_add_item':
@@ -144,6 +152,23 @@ def deciders(hs, ver, kind):
               'grid': {'meta': {'ver': '3.0'}, 'cols': [{'name': 'x'}], 'rows': [{'x': 'n:1'}]}}[kind]
     doc = {'meta': {'ver': ver}, 'cols': [{'name': 'a'}], 'rows': [{'a': jspell}]}
     out['json_reader'] = dec(lambda: hs.parse(json.dumps(doc), mode=hs.MODE_JSON))
+    def grid_with_cell_edit():
+        g = hs.Grid(version=ver, columns=[('a', [])])
+        row = {'a': 'x'}
+        g.append(row)
+        row['a'] = v            # the caller's own dict, edited after it was stored
+        return g
+
+    def grid_with_colmeta_edit():
+        g = hs.Grid(version=ver, columns=[('a', [])])
+        d = {'t': 'x'}
+        g.column['c'] = d
+        d['t'] = v
+        g.append({'a': 'x'})
+        return g
+    for where, mk in (('cell', grid_with_cell_edit), ('colmeta', grid_with_colmeta_edit)):
+        for fmt, mode in (('zinc', hs.MODE_ZINC), ('json', hs.MODE_JSON)):
+            out['%s_writer_grid_%s' % (fmt, where)] = dec(lambda: hs.dump(mk(), mode=mode))
     if kind == 'xstr' and out['json_reader'] == 'accept':
         # under a pre-3.0 version "x:..." may legitimately be read as something else than an XStr
         # (e.g. the 2.0 Remove): only an XStr in the result counts as accepting the 3.0-only kind
